@@ -402,7 +402,9 @@ def level0_deck(seed, n_cells=4, n_surfs=5, with_tr=True, with_macro=True, with_
                 e = ('#', p) if e is None else ('*', e, ('#', p))
         mat = rng.choice([0, 1, 2, 3, 4, 1])
         rho = rng.choice(RHOS)
-        if mat == 3:
+        if mat == 3 and rng.random() < 0.8:
+            # (mass fractions with an atom density are converted with a warning and an empty composition: kept in a
+            #  fifth of the decks because the written file must still be well-formed)
             rho = '-' + rho.lstrip('-')
         imp = rng.choice([1, 1, 1, 0, 2])
         c = Cell(cid, mat, rho if mat else None, e, imp=imp, imp_on_card=not use_imp_card)
